@@ -124,7 +124,7 @@ Theorem c18_frame_roundtrip : forall a last last' mx rest,
   aframe_ok a ->
   (let '(t, fl, sid, p) := aframe_parts a in len p < 16777216 /\ len p <= mx) ->
   check_order last (f_hdr (frame_of a)) = HOk last' ->
-  read_raw true last mx (ser_frame a ++ rest) 0 = WFrame (frame_of a) (len (ser_frame a)) last'.
+  read_raw psw_ok last mx (ser_frame a ++ rest) 0 = WFrame (frame_of a) (len (ser_frame a)) last'.
 Proof. exact frame_roundtrip. Qed.
 Print Assumptions c18_frame_roundtrip.
 
@@ -135,8 +135,8 @@ Proof. exact (eq_refl true). Qed.
 (* before the repair (`len(p)-padLength <= 0`) such a frame, which x/net's writer emits and x/net's reader
    accepts, was a stream error *)
 Theorem c18_headers_empty_fragment_refuted_before_repair :
-  parse_payload false (mkFh 0 T_HEADERS 0 1) [] = HErr EStream /\
-  parse_payload true (mkFh 0 T_HEADERS 0 1) [] = HOk (BHeaders None []).
+  parse_payload (mkPsw false true true) (mkFh 0 T_HEADERS 0 1) [] = HErr EStream /\
+  parse_payload psw_ok (mkFh 0 T_HEADERS 0 1) [] = HOk (BHeaders None []).
 Proof. split; vm_compute; reflexivity. Qed.
 
 Example c18_frame_example :
@@ -159,7 +159,7 @@ Theorem c18_continuation_aggregation : forall cs sid mx drains fuel pre rest off
   cs <> [] -> sid_ok sid ->
   Forall (fun f => len f < 16777216 /\ len f <= mx) cs ->
   (length cs <= fuel)%nat -> len pre = off + msize ->
-  collect true true drains fuel sid mx (pre ++ ser_conts sid cs ++ rest) off msize acc =
+  collect psw_ok true drains fuel sid mx (pre ++ ser_conts sid cs ++ rest) off msize acc =
   COk (acc ++ cs) (msize + len (ser_conts sid cs)).
 Proof. exact collect_ser. Qed.
 Print Assumptions c18_continuation_aggregation.
@@ -183,7 +183,7 @@ Theorem c18_headers_block_roundtrip : forall st sid es pr pad rs t' fs rest sk',
   sink_run (mkSink (fs_maxlist st) false false false []) fs = Some sk' ->
   check_pseudos fs [] false false = true ->
   forall drains,
-  read_frame_gen true true drains st (ser_frame a ++ rest) =
+  read_frame_gen psw_ok true drains st (ser_frame a ++ rest) =
   ROk (mkFrame (f_hdr (frame_of a)) (BMeta pr fs false)) (len (ser_frame a))
       (mkFs 0 (fs_max st) (fs_maxlist st) (mkD t' (fs_maxlist st) true true [])).
 Proof. intros st sid es pr pad rs t' fs rest sk'. apply headers_block_roundtrip. exact (eq_refl true). Qed.
@@ -238,7 +238,7 @@ Theorem c18_headers_multi_roundtrip : forall st sid es pr pad f0 cs rs t' fs res
   sink_run (mkSink (fs_maxlist st) false false false []) fs = Some sk' ->
   check_pseudos fs [] false false = true ->
   forall drains,
-  read_frame_gen true true drains st (ser_frame a ++ ser_conts sid cs ++ rest) =
+  read_frame_gen psw_ok true drains st (ser_frame a ++ ser_conts sid cs ++ rest) =
   ROk (mkFrame (f_hdr (frame_of a)) (BMeta pr fs false)) (len (ser_frame a) + len (ser_conts sid cs))
       (mkFs 0 (fs_max st) (fs_maxlist st) (mkD t' (fs_maxlist st) true true [])).
 Proof. intros st sid es pr pad f0 cs rs t' fs rest sk'. apply headers_multi_roundtrip. exact (eq_refl true). Qed.
@@ -281,7 +281,7 @@ Theorem c18_sent_header_block_read_back : forall st sid es mx rs t' fs rest sk',
   check_pseudos fs [] false false = true ->
   forall drains,
   exists hdr,
-  read_frame_gen true true drains st (ser_fragments sid es (split_block (flat_map ser_repr rs) mx) ++ rest) =
+  read_frame_gen psw_ok true drains st (ser_fragments sid es (split_block (flat_map ser_repr rs) mx) ++ rest) =
   ROk (mkFrame hdr (BMeta None fs false)) (len (ser_fragments sid es (split_block (flat_map ser_repr rs) mx)))
       (mkFs 0 (fs_max st) (fs_maxlist st) (mkD t' (fs_maxlist st) true true [])).
 Proof. intros st sid es mx rs t' fs rest sk'. apply sent_block_read_back; exact (eq_refl true). Qed.
@@ -298,3 +298,29 @@ Example c18_fragmentation_example :
    | _ => False
    end).
 Proof. cbn zeta. split; [vm_compute; reflexivity|]. split; [vm_compute; reflexivity|]. vm_compute. split; reflexivity. Qed.
+
+(* ------------------------------------------------------------------ padded frames without content *)
+(* c18_frame_roundtrip quantifies over them: `AData sid es [] (Some k)`, `AHeaders .. [] (Some k)`, `APush .. [] (Some k)`
+   serialise to PADDED frames whose content is empty (pad length = payload - 1 for DATA).  The pad-length comparisons
+   of the three padded parsers are read from frame.go (h2_data_pad_gt, h2_headers_empty_frag_ok, h2_push_pad_gt). *)
+Theorem c18_padded_parsers_as_source : psw_src = psw_ok.
+Proof. exact (eq_refl psw_ok). Qed.
+
+Example c18_zero_content_padded_frames : forall sid es k rest, sid_ok sid -> k < 256 -> 300 <= fs_max fs_new ->
+  read_raw psw_ok 0 (fs_max fs_new) (ser_frame (AData sid es [] (Some k)) ++ rest) 0 =
+  WFrame (frame_of (AData sid es [] (Some k))) (len (ser_frame (AData sid es [] (Some k)))) 0.
+Proof.
+  intros sid es k rest Hs Hk Hmx. apply frame_roundtrip.
+  - cbn [aframe_ok pad_ok]. tauto.
+  - cbn [aframe_parts pad_prefix pad_suffix app]. rewrite len_cons. unfold len. rewrite repeat_length. split; lia.
+  - unfold frame_of. cbn [aframe_parts f_hdr]. reflexivity.
+Qed.
+
+(* with `padSize >= len(payload)` (payload already without the Pad Length octet) a padded DATA frame without data -
+   e.g. a padded empty END_STREAM frame - is a connection error although it is valid and the reference accepts it;
+   likewise for PUSH_PROMISE *)
+Theorem c18_pad_check_refuted_with_ge : forall sid es k, sid_ok sid -> k < 256 ->
+  parse_payload (mkPsw true false true) (mkFh (1 + k) T_DATA (b2n es 1 + 8) sid) ([k] ++ repeat 0 (N.to_nat k)) = HErr EProtocol /\
+  parse_payload psw_ok (mkFh (1 + k) T_DATA (b2n es 1 + 8) sid) ([k] ++ repeat 0 (N.to_nat k)) = HOk (BData []).
+Proof. exact data_pad_ge_refuted. Qed.
+Print Assumptions c18_pad_check_refuted_with_ge.
